@@ -40,7 +40,7 @@ def obligations(tier, ctx):
         split("bytes2", L, 2, [("b", "bytes")], "H.bytes_cut2(b, {i}, {j})", "(a) bytes, two cuts")
     for L in range(1, (2 if tier == "quick" else 4) + 1):
         split("text", L, 2, [("s", "str")], "H.text_cut(s, {i}, {j})", "(b) text, two cuts")
-    tuples = [("resp",), ("notif",), ("junk", "resp"), ("notmsg", "req"), ("big",)] + ([("notif", "resp"), ("resp", "notmsg", "notif"), ("empty", "req", "junk")] if tier != "quick" else [])
+    tuples = [("resp",), ("notif",), ("junk", "resp"), ("notmsg", "req"), ("big",), ("trail",), ("double",)] + ([("trail_nospace",)] if tier != "quick" else []) + ([("notif", "resp"), ("resp", "notmsg", "notif"), ("empty", "req", "junk")] if tier != "quick" else [])
     if tier != "quick":
         tuples += [t for t in itertools.product(KINDS, repeat=2) if t not in tuples][:20] + [("junk", "junk", "resp"), ("notif", "notif", "notif"), ("array_junk", "resp")]
     for kt in tuples:
